@@ -176,6 +176,9 @@ class C16(Prop):
         exp = {repr(b): m for b, m in spec["merged"]}
         if len(set(ballots)) != len(ballots):
             P(f"a ballot is listed twice after autocorrect: {d[key]}", "ballots/duplicate")
+        if d.get("preferences_same") is False:
+            P("instance.preferences (the documented alias of the ballot list) still lists repeated ballots / differs "
+              "from instance.orders after autocorrect", "ballots/preferences-alias")
         if mult != exp or set(ballots) != set(exp):
             P(f"multiplicities {d['multiplicity']} are not the sums over the ballot lines {spec['merged']}", "ballots/merge")
         h = d["header"]
